@@ -10,10 +10,10 @@ def build(bin_step, py_step, miri_step, fuzz_step):
     S["C04"] = [bin_step("c04"), bin_step("c04", release=True), dbg("c04"), fuzz_step("c04_find", 2000000), py_step("gen_deep")]
     S["C05"] = [bin_step("c05"), bin_step("c05", release=True), dbg("c05"), fuzz_step("c05_trim", 2000000), py_step("gen_deep")]
     S["C07"] = [bin_step("c07"), bin_step("c07", release=True), dbg("c07"), py_step("gen_deep")]
-    S["C08"] = [bin_step("c08"), bin_step("c08", release=True), py_step("gen_deep")]
-    S["C09"] = [bin_step("c09"), bin_step("c09", release=True)]
+    S["C08"] = [bin_step("c08"), bin_step("c08", release=True), fuzz_step("c08_iter", 2000000), py_step("gen_deep")]
+    S["C09"] = [bin_step("c09"), bin_step("c09", release=True), fuzz_step("c09_range", 2000000)]
     S["C12"] = [bin_step("c12"), bin_step("c12", release=True), dbg("c12"), fuzz_step("c12_parse", 2000000), py_step("gen_deep")]
-    S["C16"] = [bin_step("c16"), bin_step("c16", release=True), py_step("gen_deep")]
+    S["C16"] = [bin_step("c16"), bin_step("c16", release=True), fuzz_step("c16_cmp", 2000000), py_step("gen_deep")]
     S["C06"] = [bin_step("c06"), bin_step("c06", release=True), dbg("c06"), fuzz_step("c06_split", 2000000), py_step("gen_deep")]
     S["C13"] = [bin_step("c13"), bin_step("c13", release=True), dbg("c13"), fuzz_step("c13_ops", 2000000), py_step("gen_deep")]
     S["C14"] = [bin_step("c13", prop="C14"), bin_step("c13", release=True, prop="C14"), dbg("c13", prop="C14"), fuzz_step("c13_ops", 2000000), py_step("gen_deep")]
